@@ -14,7 +14,7 @@ import (
 
 // Ops lists the mutation operators (the label is reported in the evidence).
 var Ops = []string{"swap-idents", "lit-kind", "delete-line", "dup-line", "drop-use", "undefined-name", "insert-branch",
-	"define-assign", "drop-arg", "swap-lines", "dup-decl-name", "replace-ident-by-literal", "delete-token", "wrap-unused-result"}
+	"define-assign", "drop-arg", "swap-lines", "dup-decl-name", "replace-ident-by-literal", "delete-token", "wrap-unused-result", "dup-case-entry"}
 
 // Mutate applies one drawn operator; it returns the mutant and the operator name ("" if the
 // operator was not applicable and the text is unchanged).
@@ -103,6 +103,33 @@ func apply(t *rapid.T, src, op string) string {
 		default:
 			j := cand[pick(t, len(cand), "line2")]
 			lines[i], lines[j] = lines[j], lines[i]
+		}
+		return strings.Join(lines, "\n")
+	case "dup-case-entry":
+		// `case A, B:` becomes `case A, B, A:` (or the whole clause head is repeated as a new empty
+		// clause): a duplicate case in an expression switch or a type switch
+		var cand []int
+		for i, l := range lines {
+			tl := strings.TrimSpace(l)
+			if strings.HasPrefix(tl, "case ") && strings.HasSuffix(tl, ":") && !strings.Contains(tl, "<-") {
+				cand = append(cand, i)
+			}
+		}
+		if len(cand) == 0 {
+			return src
+		}
+		i := cand[pick(t, len(cand), "line")]
+		tl := strings.TrimSpace(lines[i])
+		list := strings.TrimSuffix(strings.TrimPrefix(tl, "case "), ":")
+		first := list
+		if j := strings.Index(list, ", "); j >= 0 && !strings.ContainsAny(list[:j], "([{\"") {
+			first = list[:j]
+		}
+		ind := lines[i][:len(lines[i])-len(strings.TrimLeft(lines[i], " \t"))]
+		if pick(t, 2, "how") == 0 {
+			lines[i] = ind + "case " + list + ", " + first + ":"
+		} else {
+			lines = append(lines[:i:i], append([]string{ind + "case " + first + ":"}, lines[i:]...)...)
 		}
 		return strings.Join(lines, "\n")
 	case "drop-use":
